@@ -231,6 +231,7 @@ func (ex *Exec) stepAlloc(x *ssa.Alloc) {
 	case isStructVal(et):
 		r := ex.newRef(ex.cur, cellHint(x))
 		ex.zeroInit(ex.cur, r, et)
+		ex.tagType(ex.cur, r, et)
 		ex.setVal(x, Val{T: r})
 	case isArrayT(et):
 		at := et.Underlying().(*types.Array)
